@@ -43,9 +43,9 @@ def run_case(case) -> Result:
 
     res = Result()
     specs = {"A": case["sys"], "B": case["sysB"]}
-    systems, models = {}, {}
-    for k, sp in specs.items():
-        systems[k], models[k] = zoo.build_system(sp)
+    systems, models = hist.build_systems(case)
+    if case.get("sysB_from"):
+        res.classes.append("sysB:" + case["sysB_from"] + "-of-A-with-new-metric")
     made = dyn.make_state(models["A"], case["q"], case["p"], 1)
     if made is None:
         res.discarded = True
